@@ -374,6 +374,18 @@ theorem admits_defaults_example :
        | .ok j => schemaAccepts exS exDefaults 1 j
        | .error _ => false) = true := by decide
 
+/-- `AllOf` over raw scalars (Number / Integer / String / Enum of literals: accepted = conforms, the
+    stored value is the input) is inside `schema_admits_partial`; an `AllOf` with a Float option keeps the
+    raw int and stays outside (finding `admits:allOf`) -/
+theorem admits_allOf_example :
+    inSchemaFragment (flat "K" ["x"] [("x", .allOf [.integer { min := some ⟨0, 1⟩ }, .number { mult := some 2 },
+        .enumLit [.int 2, .int 4, .str "q"]]), ("b", .boolean)]) = true
+    ∧ inAdmitRegion anyO (flat "K" ["x"] [("x", .allOf [.integer { min := some ⟨0, 1⟩ }, .number { mult := some 2 },
+        .enumLit [.int 2, .int 4, .str "q"]]), ("b", .boolean)]) (.inst "K" [("x", .int 4)]) = true
+    ∧ verdict (flat "K" ["x"] [("x", .allOf [.integer { min := some ⟨0, 1⟩ }, .number { mult := some 2 },
+        .enumLit [.int 2, .int 4, .str "q"]]), ("b", .boolean)]) (.inst "K" [("x", .int 4)]) = true
+    ∧ inSchemaFragment (flat "K" ["x"] [("x", .allOf [.integer {}, .float {}]), ("b", .boolean)]) = false := by decide
+
 /-- finding `ill-formed:default:not-json`: a default that is a list of enum members (or a set, a
     tuple) is written into the schema verbatim -/
 theorem counterexample_default_not_json :
